@@ -311,6 +311,25 @@ func c16(ctx *Ctx) (*Outcome, error) {
 			jobs = append(jobs, j)
 		}
 	}
+	// enumerated: every kind of schema that gets methods in a full run (enums of every value kind incl. the null-typed
+	// one whose wrapper exists because interface{} cannot carry methods, nullable enums, format strings, objects with
+	// every validator kind, maps, anyOf) at required / optional / nullable-list / items / definition positions - what is
+	// declared must not depend on whether the methods are emitted
+	for k, body := range []string{`"type":"null","enum":[null]`, `"type":["null"],"enum":[null]`, `"enum":[null]`, `"type":["string","null"],"enum":["a",null]`, `"type":"boolean","enum":[true]`,
+		`"type":"string","enum":["a"],"default":"a"`, `"type":"string","format":"date"`, `"type":"object","additionalProperties":{"type":"integer"}`, `"type":"object","properties":{"k":{"type":"string","pattern":"^a"}},"additionalProperties":{"type":"string"}`,
+		`"anyOf":[{"type":"object","properties":{"a":{"type":"string"}},"required":["a"]},{"type":"object","properties":{"b":{"type":"integer"}}}]`, `"type":"array","items":{"type":"string","enum":["x","y"]},"minItems":1`, `"type":"null"`} {
+		text := `{"$id":"https://example.com/opt","type":"object","required":["req"],"properties":{"req":{` + body + `},"opt":{` + body + `},"list":{"type":"array","items":{` + body + `}},"viaDef":{"$ref":"#/$defs/D"},"nested":{"type":"object","properties":{"in":{` + body + `}}}},"$defs":{"D":{` + body + `}}}`
+		root, err := sg.FromJSON([]byte(text))
+		if err != nil {
+			continue
+		}
+		j := &job{root: root}
+		for _, base := range [][]string{nil, {"--extra-imports"}, {"--min-sized-ints", "--struct-name-from-title"}} {
+			j.pairs = append(j.pairs, optPair{kind: "only-models", a: base, b: append(append([]string{}, base...), "--only-models")})
+		}
+		_ = k
+		jobs = append(jobs, j)
+	}
 	type pres struct {
 		problem string
 		skipped string
